@@ -617,6 +617,14 @@ pub struct ResponseMessage {
     pub(crate) data: Bytes,
 }
 
+#[cfg(memcrs_verif)]
+impl ResponseMessage {
+    /// verification hook: the encoded response bytes
+    pub fn verif_bytes(&self) -> &Bytes {
+        &self.data
+    }
+}
+
 impl MemcacheBinaryCodec {
     const RESPONSE_HEADER_LEN: usize = 24;
 
